@@ -314,6 +314,17 @@ func (c *cluster) generate(rt *rapid.T, p *profile, spec *checkSpec) {
 			c.step(vAct{A: "adv", T: 100})
 		}
 	}
+	// a crash armed at a drawn hook point on a drawn node before the templates run:
+	// crosses every template with every crash window (F26 was found that way)
+	if len(p.tpl) > 0 && p.preArm > 0 && !c.failed() && !c.blackbox && rapid.IntRange(0, 99).Draw(rt, "preArm") < p.preArm {
+		ids := c.upIDs()
+		if len(ids) > 0 {
+			c.step(vAct{A: "crash", N: ids[rapid.IntRange(0, len(ids)-1).Draw(rt, "preArmNode")],
+				S: crashPoints[rapid.IntRange(0, len(crashPoints)-1).Draw(rt, "preArmPoint")],
+				K: rapid.IntRange(1, 3).Draw(rt, "preArmK"), B: rapid.Bool().Draw(rt, "preArmFin")})
+			c.stats.class("pre-armed-crash")
+		}
+	}
 	// templates: scripted deep-state compositions, each with its own probability
 	if len(p.tpl) > 0 && !c.failed() {
 		names := make([]string, 0, len(p.tpl))
